@@ -308,7 +308,7 @@ type vpmetaHistoryEntry struct {
 type vpmetaState struct {
 	Journal   []vpmetaEvent                  `json:"journal"`
 	History   map[int64][]vpmetaHistoryEntry `json:"history"`
-	Mappings  []vpmetaPair                   `json:"mappings"`  // whole table through GetNewMappings, ascending id
+	Mappings  []vpmetaPair                   `json:"mappings"` // whole table through GetNewMappings, ascending id
 	MaxMapID  int32                          `json:"max_map_id"`
 	ByValue   map[string]int32               `json:"by_value"` // probe keys → id (0 = not exists)
 	ByID      map[int32]string               `json:"by_id"`    // probe ids → key ("\x00absent" = not exists)
